@@ -607,3 +607,146 @@ Fixpoint wops_okb (w : world) (ops : list wop) : bool :=
   end.
 
 Definition WInv (w : world) : Prop := Inv2 (w_cur w) /\ Forall Inv2 (w_others w).
+
+(* ------------------------------------------------------------------------------------ *)
+(* what belongs to the CALLER (round 5)                                                  *)
+(* ------------------------------------------------------------------------------------ *)
+(* Three things a caller holds and may change between two operations of a history:
+   (1) the objects it passed as parameters: ExtraBytesParams objects (with their own scales / offsets arrays), the arrays,
+       the lists.  PointFormat.add_extra_dimension takes VALUES: name, type, description and the numbers of the scales and
+       offsets as they are when add_extra_dims is called; what the caller does to its objects afterwards reaches nothing.
+       cw_params are the caller's ExtraBytesParams objects; CAddParams passes some of them as they are now.
+   (2) the header's point count: a counter next to the record, refreshed by the points setter (update_header) and by
+       reading a file, and STALE in a LasData(header, points) made from a header that counts other points (a copy of a
+       file's header with one chunk of it, a slice, an attribute assignment).  No operation of this model reads it:
+       LasData.add_extra_dims / remove_extra_dims allocate len(points) records.
+   (3) the VLR list: `las.vlrs` is a list the caller may extend with the list of another file (its extra-bytes VLR
+       included), reorder, fill with duplicates (CEditVlrs vl false: the list is now vl, nothing else happens), or
+       replace through the vlrs setter, which synchronises (CEditVlrs vl true).  After an in-place edit (I3) is the
+       caller's business until the next add / remove re-synchronises: _sync_extra_bytes_vlr takes out EVERY
+       extra-bytes VLR, wherever it stands, and appends the one that describes the point format. *)
+Definition set_vlrs (s : state) (vl : list vlr) : state := mkSt (st_fmt s) (st_extras s) (st_recs s) vl.
+
+(* LasHeader.vlrs = vl: the list is replaced, then _sync_extra_bytes_vlr *)
+Definition assign_vlrs (s : state) (vl : list vlr) : state * result unit :=
+  match sync_vlrs (st_extras s) vl with
+  | Ok vl' => (set_vlrs s vl', Ok tt)
+  | Err e => (s, Err e)
+  end.
+
+Record cworld := mkCW {
+  cw_w : world;
+  cw_count : Z;            (* header.point_count of the current LasData: a counter, possibly stale *)
+  cw_dirty : bool;         (* the VLR list of the current LasData was edited in place and not synchronised since *)
+  cw_params : list edim    (* the caller's ExtraBytesParams objects, as they are now *)
+}.
+
+Inductive cop :=
+| CW (o : wop)                              (* an operation of the world of live objects *)
+| CEditVlrs (vl : list vlr) (setter : bool) (* the VLR list of the current LasData becomes vl: in place / through the setter *)
+| CSetCount (n : Z)                         (* header.point_count = n *)
+| CRewrap (idx : list Z) (cnt : option Z)   (* LasData(header', points[idx]) with header' a copy of the header (None: it
+                                               keeps the count it has) or the header of the file the points were read from
+                                               as a chunk (Some n); no update_header; the history goes on with it *)
+| CNewParam (d : edim)                      (* p = ExtraBytesParams(...) *)
+| CSetParam (i : nat) (d : edim)            (* the caller changes its i-th params object (any attribute, arrays in place) *)
+| CAddParams (idx : list nat).              (* las.add_extra_dims([p_i, ...]) *)
+
+(* operations after which header.point_count is the number of points of the (new) current LasData: the points setter
+   calls update_header; a file that is read says how many points it has.  laspy.convert copies the header as it is. *)
+Definition op_refreshes (o : op) : bool :=
+  match o with Add _ | Remove _ | SetPoints _ _ | RoundTrip | Reread _ => true | _ => false end.
+Definition wop_refreshes (o : wop) : bool :=
+  match o with WOp o | WNew o => op_refreshes o | WSelect b _ => b | WCopy => false end.
+Definition wop_syncs (o : wop) : bool := match o with WOp o | WNew o => op_syncs o | _ => false end.
+Definition is_ok (r : result unit) : bool := match r with Ok _ => true | Err _ => false end.
+
+Definition cw_cur (c : cworld) : state := w_cur (cw_w c).
+
+Definition cworld_op (c : cworld) (o : wop) : cworld * result unit :=
+  let r := wstep (cw_w c) o in
+  (mkCW (fst r)
+        (if is_ok (snd r) && wop_refreshes o then len (st_recs (w_cur (fst r))) else cw_count c)
+        (if is_ok (snd r) && wop_syncs o then false else cw_dirty c)
+        (cw_params c), snd r).
+
+Fixpoint set_nth {A} (i : nat) (x : A) (l : list A) : list A :=
+  match l, i with
+  | [], _ => []
+  | _ :: r, O => x :: r
+  | a :: r, S k => a :: set_nth k x r
+  end.
+
+Fixpoint pick_params (ps : list edim) (idx : list nat) : option (list edim) :=
+  match idx with
+  | [] => Some []
+  | i :: r => match nth_error ps i, pick_params ps r with
+              | Some d, Some ds => Some (d :: ds)
+              | _, _ => None
+              end
+  end.
+
+Definition cstep (c : cworld) (o : cop) : cworld * result unit :=
+  match o with
+  | CW o => cworld_op c o
+  | CEditVlrs vl false =>
+      (mkCW (mkW (set_vlrs (cw_cur c) vl) (w_others (cw_w c))) (cw_count c) true (cw_params c), Ok tt)
+  | CEditVlrs vl true =>
+      match assign_vlrs (cw_cur c) vl with
+      | (s', Ok _) => (mkCW (mkW s' (w_others (cw_w c))) (cw_count c) false (cw_params c), Ok tt)
+      | (_, Err e) => (c, Err e)
+      end
+  | CSetCount n => (mkCW (cw_w c) n (cw_dirty c) (cw_params c), Ok tt)
+  | CRewrap idx cnt =>
+      match select (cw_cur c) idx with
+      | Ok s' => (mkCW (mkW s' (w_others (cw_w c) ++ [cw_cur c]))
+                       (match cnt with Some n => n | None => cw_count c end) (cw_dirty c) (cw_params c), Ok tt)
+      | Err e => (c, Err e)
+      end
+  | CNewParam d => (mkCW (cw_w c) (cw_count c) (cw_dirty c) (cw_params c ++ [d]), Ok tt)
+  | CSetParam i d => (mkCW (cw_w c) (cw_count c) (cw_dirty c) (set_nth i d (cw_params c)), Ok tt)
+  | CAddParams idx =>
+      match pick_params (cw_params c) idx with
+      | Some ds => cworld_op c (WOp (Add ds))
+      | None => (c, Err EIndex)
+      end
+  end.
+
+Definition crun (c : cworld) (ops : list cop) : cworld := fold_left (fun c o => fst (cstep c o)) ops c.
+Fixpoint ctrace (c : cworld) (ops : list cop) : list (cworld * result unit) :=
+  match ops with
+  | [] => []
+  | o :: r => let co := cstep c o in co :: ctrace (fst co) r
+  end.
+
+(* operations that neither read nor write the VLR list *)
+Definition op_local (o : op) : bool := match o with Assign _ _ | AssignStd _ | SetPoints _ _ => true | _ => false end.
+
+(* the hypothesis on names (wop_okb), and: while the VLR list is the caller's (edited in place), the next operation that
+   looks at it is one that synchronises it — an add, a remove (or a conversion in place) on that LasData.  Writing a file, reading it back, copying
+   or selecting from a LasData whose VLR list the caller has filled with foreign extra-bytes VLRs is not what the
+   property speaks about. *)
+Definition cop_okb (c : cworld) (o : cop) : bool :=
+  match o with
+  | CW (WOp o) => op_okb (cw_cur c) o && (negb (cw_dirty c) || op_local o || op_syncs o)
+  | CW o => wop_okb (cw_w c) o && negb (cw_dirty c)
+  | CRewrap _ _ => negb (cw_dirty c)
+  | CAddParams idx => match pick_params (cw_params c) idx with
+                      | Some ds => op_okb (cw_cur c) (Add ds)
+                      | None => true
+                      end
+  | _ => true
+  end.
+Fixpoint cops_okb (c : cworld) (ops : list cop) : bool :=
+  match ops with
+  | [] => true
+  | o :: r => cop_okb c o && cops_okb (fst (cstep c o)) r
+  end.
+
+(* every live object satisfies its invariant; the current one at least the base invariant (record layout = point format,
+   legal distinct names), and the full one whenever its VLR list is not in the caller's hands *)
+Definition CInv (c : cworld) : Prop :=
+  (if cw_dirty c then InvB (cw_cur c) else Inv2 (cw_cur c)) /\ Forall Inv2 (w_others (cw_w c)).
+
+Definition is_count_op (o : cop) : bool := match o with CSetCount _ => true | _ => false end.
+Definition is_param_write (o : cop) : bool := match o with CSetParam _ _ | CNewParam _ => true | _ => false end.
